@@ -104,9 +104,13 @@ def _expand_kwargs(fn, b, pcs, st, t, method, hb):
         return ("unknown", "** argument not resolved")
     cfg = cfg_of(fn)
     kws = {k: v for k, v in t[3] if k != "**"}
+    inits = [cfg.node(x) for x in cfg.all_stmts() if isinstance(x, ast.Assign) and any(isinstance(g, ast.Name) and g.id == name for g in x.targets)]
+    from vstat.cfg import ENTRY
+    if not inits or cfg.reachable_avoiding(ENTRY, {cfg.node(st)}, inits):
+        return ("unknown", "keyword dict not initialised on every path to the call")
     for key, val, pc, s2 in local_dict_stores(fn, b, pcs, name):
-        if cfg.enclosing_loops(s2) or not cfg.dominates(cfg.node(next(x for x in cfg.all_stmts() if isinstance(x, ast.Assign) and any(isinstance(g, ast.Name) and g.id == name for g in x.targets))), cfg.node(st)):
-            return ("unknown", "keyword dict filled in a loop or not initialised on every path")
+        if cfg.enclosing_loops(s2):
+            return ("unknown", "keyword dict filled in a loop")
         vals = [_ev(l, method, hb) for l in pc]
         if any(v is False for v in vals):
             continue
